@@ -760,10 +760,45 @@ def flatten(f):
     return [f]
 
 
+def deep_mentions(t, v, _seen=None):
+    """Does term t mention constant v, looking THROUGH named sum / extremum atoms (whose constants stand for
+    bodies that may mention v)?"""
+    if mentions(t, v):
+        return True
+    for a in SUMS.atoms_in([t]):
+        if mentions(a.body, v) or mentions(a.n, v):
+            return True
+    for a in EXTREMA.atoms_in([t]):
+        if mentions(a.body, v) or mentions(a.n, v):
+            return True
+    return False
+
+
+def deep_substitute(term, k, tz):
+    """Substitute constant k by term tz in `term`, re-creating every named sum / extremum atom whose body
+    (or range) mentions k, so that a value computed for a symbolic loop index can be generalised soundly."""
+    if not deep_mentions(term, k):
+        return term
+    repl = []
+    for a in SUMS.atoms_in([term]):
+        if deep_mentions(a.body, k) or deep_mentions(a.n, k):
+            nb = deep_substitute(a.body, k, tz)
+            nn = deep_substitute(a.n, k, tz)
+            repl.append((a.const, SUMS.atom(nn, a.bound, nb)))
+    for a in EXTREMA.atoms_in([term]):
+        if deep_mentions(a.body, k) or deep_mentions(a.n, k):
+            nb = deep_substitute(a.body, k, tz)
+            nn = deep_substitute(a.n, k, tz)
+            repl.append((a.const, EXTREMA.atom(nn, a.bound, nb, a.which)))
+    if repl:
+        term = z3.substitute(term, *repl)
+    return z3.substitute(term, (k, tz))
+
+
 def subst_formula(f, k, t):
-    """Substitute z3 constant k by term t in a formula (through Forall closures)."""
+    """Substitute z3 constant k by term t in a formula (through Forall closures and named atoms)."""
     if isinstance(f, Sc):
-        return wrap(z3.substitute(f.t, (k, to_z3(t, 'int'))))
+        return wrap(deep_substitute(f.t, k, to_z3(t, 'int')))
     if isinstance(f, Forall):
         body = f.body
         return Forall(f.ranges, lambda *a: subst_formula(body(*a), k, t), f.name, f.lazy)
